@@ -274,4 +274,179 @@ theorem overflow_counterexample_proportional :
   refine (panics_iff _ _ _ _ hv .range).2 ⟨rfl, by decide, by decide, by decide, by decide, ?_⟩
   decide
 
+/-! ## No ratchet: an idle chain brings the price back to the floor -/
+
+/-- Over any run of under-target blocks (same params) the computation never
+panics, the price never drops below the floor, and after `n` such blocks it is
+at most `max initial (last − n)`: within `last − initial` blocks it is back at
+`initial` (the behaviour issue #5906 asked for). -/
+theorem idle_chain_decays (maxGas : Int) (p : Params) (us : List Int) (last : GasPrice)
+    (hp : p.Valid) (hm : InRange maxGas)
+    (hpr : InRange p.ratio ∧ InRange p.compressor ∧ InRange p.initial.amount)
+    (h2 : p.ratio ≠ 0) (h3 : 0 < targetGas maxGas p.ratio)
+    (hus : ∀ u ∈ us, 0 ≤ u ∧ InRange u ∧ u < targetGas maxGas p.ratio)
+    (hl : InRange last.amount) (h5 : p.initial.amount ≤ last.amount) :
+    ∃ g, runBlocks maxGas p last us = .ok g ∧ p.initial.amount ≤ g.amount ∧
+      g.amount ≤ max p.initial.amount (last.amount - us.length) ∧ g.gas = last.gas := by
+  have hi0 : 0 ≤ p.initial.amount := hp.2.2.2.2
+  induction us generalizing last with
+  | nil => exact ⟨last, rfl, h5, by simp only [List.length_nil]; omega, rfl⟩
+  | cons u us ih =>
+    obtain ⟨hu0, hur, hut⟩ := hus u (List.mem_cons_self ..)
+    have hus' : ∀ v ∈ us, 0 ≤ v ∧ InRange v ∧ v < targetGas maxGas p.ratio :=
+      fun v hv => hus v (List.mem_cons_of_mem _ hv)
+    have hv : ValidInputs last u maxGas p := ⟨hp, by omega, hl, hu0, hur, hm, hpr.1, hpr.2.1, hpr.2.2⟩
+    by_cases h1 : last.amount = 0
+    · have hc : calcPrice last u maxGas p = .ok last := unchanged_when_idle _ _ _ _ (Or.inl h1)
+      obtain ⟨g, hg, ha, hb, hgas⟩ := ih last hus' hl h5
+      refine ⟨g, by simp only [runBlocks, hc]; exact hg, ha, ?_, hgas⟩
+      simp only [List.length_cons]; omega
+    · have hc := decrease_exact last u maxGas p hv h1 h2 h3 hut h5
+      have hd := downStep_ge_one last u maxGas p
+      let nxt : GasPrice := { last with amount := max (last.amount - downStep last u maxGas p) p.initial.amount }
+      have hn1 : p.initial.amount ≤ nxt.amount := by
+        show p.initial.amount ≤ max (last.amount - downStep last u maxGas p) p.initial.amount
+        omega
+      have hn2 : nxt.amount ≤ max p.initial.amount (last.amount - 1) := by
+        show max (last.amount - downStep last u maxGas p) p.initial.amount ≤ _
+        omega
+      have hnr : InRange nxt.amount := by
+        unfold InRange int64Min at *; omega
+      obtain ⟨g, hg, ha, hb, hgas⟩ := ih nxt hus' hnr hn1
+      refine ⟨g, by simp only [runBlocks, hc]; exact hg, ha, ?_, hgas⟩
+      simp only [List.length_cons]; omega
+
+example : runBlocks 1000 ⟨10, 70, ⟨1, "ugnot", 20⟩⟩ ⟨1, "ugnot", 25⟩ [0, 0, 0, 0, 0] = .ok ⟨1, "ugnot", 20⟩ := by
+  rfl
+
+/-! ## `UpdateGasPrice`: what the EndBlocker writes, observed through `LastGasPrice` -/
+
+/-- A negative reading of the block gas meter makes `UpdateGasPrice` return at once. -/
+theorem update_ignores_negative_gas (s : Store) (used maxGas : Int) (p : Params) (h : used < 0) :
+    update s used maxGas p = .ok s := by
+  simp [update, h]
+
+/-- A panic of the computation is a panic of the EndBlocker (nothing is written). -/
+theorem update_propagates_panic (s : Store) (lgp : GasPrice) (used maxGas : Int) (p : Params) (e : Panic)
+    (hu : 0 ≤ used) (hl : lastGasPrice s = .ok lgp) (hr : calcPrice lgp used maxGas p = .error e) :
+    update s used maxGas p = .error e := by
+  have : ¬ used < 0 := by omega
+  simp [update, this, hl, hr]
+
+/-- Otherwise the computed price is what `LastGasPrice` returns after the block
+(in its stored form: same gas unit and amount, the denom dropped at amount 0),
+and the store is not touched when the price did not change (the skip-write
+rule).  Hypothesis `hne`: the new price does not encode to nothing — a price
+"0 per 0 gas" with a denom is not `std.GasPrice{}` yet cannot be stored. -/
+theorem update_follows_calc (s : Store) (lgp new : GasPrice) (used maxGas : Int) (p : Params)
+    (hu : 0 ≤ used) (hl : lastGasPrice s = .ok lgp) (hr : calcPrice lgp used maxGas p = .ok new)
+    (hn : 0 ≤ new.amount) (hne : new.gas ≠ 0 ∨ new.amount ≠ 0 ∨ new = lgp) :
+    ∃ s', update s used maxGas p = .ok s' ∧ lastGasPrice s' = .ok (stored new) ∧ (new = lgp → s' = s) := by
+  have hu' : ¬ used < 0 := by omega
+  by_cases he : new = lgp
+  · subst he
+    refine ⟨s, by simp [update, hu', hl, hr], ?_, fun _ => rfl⟩
+    rw [(lastGasPrice_ok hl).1]; exact hl
+  · have hz : new ≠ GasPrice.zero := by
+      intro hz; subst hz
+      rcases hne with h | h | h
+      · exact h rfl
+      · exact h rfl
+      · exact he h
+    have hq : ¬ (new.gas = 0 ∧ new.amount = 0) := by
+      rintro ⟨h1, h2⟩
+      rcases hne with h | h | h
+      · exact h h1
+      · exact h h2
+      · exact he h
+    refine ⟨some new, by simp [update, hu', hl, hr, he, setGasPrice, hz, hq], ?_, fun h => absurd h he⟩
+    have : ¬ new.amount < 0 := by omega
+    simp [lastGasPrice, this]
+
+/-- THE STATEMENT, end to end, minus the overflow case: for every store whose
+price reads back as `lgp`, valid inputs, a price per a non-zero number of gas
+units, and an increase that fits in int64, `UpdateGasPrice` returns normally
+and the price read afterwards obeys the rule (`PriceRule`): unchanged when
+idle or on target, up by ≥ 1 above target, down by ≥ 1 but not below the floor
+under target (staying at the floor once there; jumping to it from below). -/
+theorem end_block_rule_partial (s : Store) (lgp : GasPrice) (used maxGas : Int) (p : Params)
+    (hl : lastGasPrice s = .ok lgp) (hv : ValidInputs lgp used maxGas p)
+    (hgas : lgp.amount ≠ 0 → lgp.gas ≠ 0) (hfit : ¬ Overflows lgp used maxGas p) :
+    ∃ s' g, update s used maxGas p = .ok s' ∧ lastGasPrice s' = .ok g ∧
+      PriceRule lgp.amount g.amount used (targetGas maxGas p.ratio) p.ratio p.initial.amount := by
+  have hu : 0 ≤ used := hv.2.2.2.1
+  have h0 : 0 ≤ lgp.amount := hv.2.1
+  have hi0 : 0 ≤ p.initial.amount := hv.1.2.2.2.2
+  obtain ⟨new, hr⟩ := never_panics_partial lgp used maxGas p hv hfit
+  -- the rule on (lgp, new)
+  have rule : PriceRule lgp.amount new.amount used (targetGas maxGas p.ratio) p.ratio p.initial.amount ∧
+      0 ≤ new.amount ∧ (new.gas ≠ 0 ∨ new.amount ≠ 0 ∨ new = lgp) := by
+    by_cases hi : Idle lgp used maxGas p
+    · have hn := hr
+      rw [unchanged_when_idle lgp used maxGas p hi] at hn
+      injection hn with hn; subst hn
+      unfold Idle at hi
+      refine ⟨⟨fun _ => rfl, ?_, ?_⟩, h0, Or.inr (Or.inr rfl)⟩
+      · intro a b c d; rcases hi with hi | hi | hi | hi <;> omega
+      · intro a b c d; rcases hi with hi | hi | hi | hi <;> omega
+    · unfold Idle at hi
+      have h1 : lgp.amount ≠ 0 := fun h => hi (Or.inl h)
+      have h2 : p.ratio ≠ 0 := fun h => hi (Or.inr (Or.inl h))
+      have h3 : 0 < targetGas maxGas p.ratio := by
+        have : ¬ targetGas maxGas p.ratio ≤ 0 := fun h => hi (Or.inr (Or.inr (Or.inl h)))
+        omega
+      have h4 : used ≠ targetGas maxGas p.ratio := fun h => hi (Or.inr (Or.inr (Or.inr h)))
+      by_cases hlt : used < targetGas maxGas p.ratio
+      · by_cases h5 : p.initial.amount ≤ lgp.amount
+        · obtain ⟨a, b, c, d, _⟩ := decrease_at_least_one lgp new used maxGas p hv h1 h2 h3 hlt h5 hr
+          refine ⟨⟨?_, ?_, ?_⟩, by omega, Or.inl (by rw [d]; exact hgas h1)⟩
+          · intro h; rcases h with h | h | h | h <;> omega
+          · intro _ _ _ h; omega
+          · intro _ _ _ _
+            exact ⟨a, b, fun h => by rw [c h], fun h => by omega⟩
+        · have hn := hr
+          rw [below_floor_jumps_to_initial lgp used maxGas p h1 h2 h3 hlt (by omega)] at hn
+          injection hn with hn; subst hn
+          refine ⟨⟨?_, ?_, ?_⟩, hi0, Or.inr (Or.inl (by omega))⟩
+          · intro h; rcases h with h | h | h | h <;> omega
+          · intro _ _ _ h; omega
+          · intro _ _ _ _
+            exact ⟨Int.le_refl _, fun h => by omega, fun h => by omega, fun _ => rfl⟩
+      · have hgt : targetGas maxGas p.ratio < used := by omega
+        obtain ⟨a, b, _⟩ := increase_at_least_one lgp new used maxGas p hv h1 h2 h3 hgt hr
+        refine ⟨⟨?_, ?_, ?_⟩, by omega, Or.inr (Or.inl (by omega))⟩
+        · intro h; rcases h with h | h | h | h <;> omega
+        · intro _ _ _ _; exact a
+        · intro _ _ _ h; omega
+  obtain ⟨s', hs', hg', _⟩ := update_follows_calc s lgp new used maxGas p hu hl hr rule.2.1 rule.2.2
+  refine ⟨s', stored new, hs', hg', ?_⟩
+  rw [stored_amount]; exact rule.1
+
+example : lastGasPrice (some ⟨1, "ugnot", 100⟩) = .ok ⟨1, "ugnot", 100⟩ ∧
+    ValidInputs ⟨1, "ugnot", 100⟩ 900 1000 ⟨10, 70, ⟨1, "ugnot", 1⟩⟩ ∧
+    ¬ Overflows ⟨1, "ugnot", 100⟩ 900 1000 ⟨10, 70, ⟨1, "ugnot", 1⟩⟩ :=
+  ⟨by simp [lastGasPrice, stored], by decide, by decide⟩
+
+/-- The statement end to end, as stated (no overflow guard) — FALSE, see
+`end_block_counterexample`. -/
+def end_block_rule_statement : Prop :=
+  ∀ (s : Store) (lgp : GasPrice) (used maxGas : Int) (p : Params),
+    lastGasPrice s = .ok lgp → ValidInputs lgp used maxGas p → (lgp.amount ≠ 0 → lgp.gas ≠ 0) →
+    ∃ s' g, update s used maxGas p = .ok s' ∧ lastGasPrice s' = .ok g ∧
+      PriceRule lgp.amount g.amount used (targetGas maxGas p.ratio) p.ratio p.initial.amount
+
+/-- On the overflow witness the EndBlocker itself panics. -/
+theorem end_block_counterexample : ¬ end_block_rule_statement := by
+  intro h
+  have hv : ValidInputs ⟨1, "ugnot", 9223372036854775807⟩ 7000001 10000000 ⟨10, 70, ⟨1, "ugnot", 1⟩⟩ := by decide
+  have hl : lastGasPrice (some ⟨1, "ugnot", 9223372036854775807⟩) = .ok ⟨1, "ugnot", 9223372036854775807⟩ := by
+    simp [lastGasPrice, stored]
+  obtain ⟨s', g, hs', _⟩ := h _ _ _ _ _ hl hv (by decide)
+  have hov : Overflows ⟨1, "ugnot", 9223372036854775807⟩ 7000001 10000000 ⟨10, 70, ⟨1, "ugnot", 1⟩⟩ := by
+    refine ⟨by decide, by decide, by decide, by decide, ?_⟩
+    decide
+  have hp := (panics_iff _ _ _ _ hv .range).2 ⟨rfl, hov⟩
+  rw [update_propagates_panic _ _ _ _ _ .range (by decide) hl hp] at hs'
+  cases hs'
+
 end GnoVerif.C17
